@@ -150,7 +150,7 @@ def perturb(spec, k, amp=1.0, diff2x2=False, kern_jitter=True):
     if k == 0:
         return m
     for gi, g in enumerate(m["glyphs"]):
-        g["width"] = g.get("width", 0) + 13 * k
+        g["width"] = (g.get("width", 0) + 13 * k) if g.get("width", 0) else 0   # zero-width (non-spacing) glyphs stay zero-width in every master
         g["contours"] = [
             [[x * (1 + 0.1 * k * amp) + 7 * k * amp * math.sin(x / 97 + y / 53), y * (1 + 0.07 * k * amp) + 5 * k * amp * math.cos(x / 71 - y / 89), t] for x, y, t in c]
             for c in g.get("contours", [])
